@@ -9,7 +9,11 @@ the causal relation recorded in the `ctx` sets:
   counters: the sum of the seen increments (minus the seen decrements);
   flag: some seen enable;           mv register: the seen writes not overwritten by a seen write;
   or-set / or-map keys: the elements with a seen add that no seen remove had observed;
-  lww register: the seen write with the greatest (timestamp, node) stamp.
+  lww register: the seen write with the greatest EFFECTIVE (timestamp, node) stamp — "last writer wins
+    by effective stamp; a writer's own consecutive writes are ordered": a write whose stamp loses
+    against the greatest stamp its replica has seen is refused (it never happened), and a write by
+    the node that owns that greatest stamp, under the same timestamp, takes the next tick
+    (`lwEffective`, the Set rule of the code since 670e96a / 17f90ec).
 Two replicas with the same `seen` set must expose the same value (this is all that is demanded of
 OR-map values).
 -/
@@ -17,7 +21,8 @@ namespace GoaktVerif.Spec.C39
 
 inductive Mut where
   | gcInc (n : Nat) | pnInc (n : Nat) | pnDec (n : Nat) | flEnable
-  | lwSet (v : Nat) (ts : Int) | mvSet (v : Nat)
+  /-- an LWW write with its EFFECTIVE timestamp; a refused write is recorded as `lwRefused` -/
+  | lwSet (v : Nat) (ts : Int) | lwRefused | mvSet (v : Nat)
   | osAdd (e : Nat) | osRem (e : Nat) | omSet (k n : Nat) | omRem (k : Nat)
   deriving Repr, DecidableEq
 
@@ -53,6 +58,27 @@ def liveElems (us : List Upd) (isAdd : Mut → Option Nat) (isRem : Mut → Opti
 
 /-- the stamp order of LWW: timestamp, then node (= replica index, same order as the node names) -/
 def stampLt (a b : Int × Nat) : Bool := a.1 < b.1 || (a.1 == b.1 && a.2 < b.2)
+
+/-- the greatest effective stamp among the seen LWW writes of a key (`none` = never written) -/
+def lwStored (us : List Upd) : Option (Int × Nat) :=
+  us.foldl (fun best u =>
+    match u.op with
+    | .lwSet _ ts =>
+      match best with
+      | none => some (ts, u.rep)
+      | some b => if stampLt b (ts, u.rep) then some (ts, u.rep) else some b
+    | _ => best) none
+
+/-- the Set rule: what timestamp a write `(ts, replica)` takes at a replica whose seen writes are
+    `us` — `none` when it is refused (its stamp loses against the stored one; a fresh register carries
+    stamp (0, "") which is below every node's stamp at ts ≥ 0) -/
+def lwEffective (us : List Upd) (rep : Nat) (ts : Int) : Option Int :=
+  match lwStored us with
+  | none => if ts < 0 then none else some ts
+  | some (sts, srep) =>
+    if ts < sts || (ts == sts && rep < srep) then none
+    else if ts == sts && rep == srep then some (ts + 1)
+    else some ts
 
 /-- the values the spec allows (a list: more than one only for an LWW stamp tie) -/
 def expected (hist : List Upd) (key : String) (seen : List Nat) : List Val :=
